@@ -226,7 +226,7 @@ class C13:
                    'D34 (an array with a huge constant bound and an initializer exhausts memory / time) is recorded; identified by its input shape']
 
     def budget(self, tier):
-        return 8000 if tier == 'quick' else 200000
+        return 8000 if tier == 'quick' else 100000
 
     def prepare(self, tree, tier):
         get_seeds(tree)
